@@ -17,6 +17,7 @@ CONSTANTS
     DynVals,        \* TRUE: additionally offer values read off the current table (first / last row)
     SplitFields,    \* fields offered to Split
     Starts,         \* starting numbers offered to RenumberObjects
+    Orders,         \* input lists offered to the merges: sequences of distinct names from "a", "b", "a2", "b2"
     NScore,         \* number of score tokens (Fork with bump rotates the score token)
     MinRows,        \* shrinking actions are enabled only if they leave >= MinRows rows (or remove nothing)
     ThirdGuard,     \* TRUE: ... and at least a third of the rows (keeps simulated histories on large tables informative)
@@ -64,11 +65,11 @@ RemoveRows(f, vals) == LET P == RemoveOf(A, f, vals) IN
                        /\ Keep(P)
                        /\ Step([name |-> "remove", f |-> f, vals |-> vals], P, B) /\ UNCHANGED gen
 
-Split(f, k) == LET parts == SplitOf(A, f) IN
-               /\ k \in DOMAIN parts
+SplitAct(f, k, parts) ==
                /\ Keep(parts[k])
                /\ Step([name |-> "split", f |-> f, k |-> k, parts |-> [m \in DOMAIN parts |-> PJ(parts[m])]], parts[k], B)
                /\ UNCHANGED gen
+Split(f) == LET parts == SplitOf(A, f) IN \E k \in DOMAIN parts : SplitAct(f, k, parts)
 
 Intersect == LET P == IntersectOf(A, B) IN
              /\ Keep(P)
@@ -78,19 +79,28 @@ DropDup(dupf, asc) == LET P == DropDupOf(A, dupf, asc) IN
                       /\ Keep(P)
                       /\ Step([name |-> "dropdup", f |-> dupf, asc |-> asc], P, B) /\ UNCHANGED gen
 
-Mergeable == Tags(A) \cap Tags(B) = {} /\ Len(A) + Len(B) <= MaxRows
+\* Merges take a list of 2..4 inputs named "a" (A), "b" (B), "a2", "b2" (copies of A / B with fresh tags - the
+\* harness builds them from this state - so that one call can receive the same numbering ranges several times)
+Retag(T, g) == [i \in DOMAIN T |-> [T[i] EXCEPT !.tag = 1000 * g + i]]
+CopyA == Retag(A, gen + 1)
+CopyB == Retag(B, gen + 2)
+Input(nm) == CASE nm = "a" -> A [] nm = "b" -> B [] nm = "a2" -> CopyA [] nm = "b2" -> CopyB
+Inputs(order) == [k \in DOMAIN order |-> Input(order[k])]
 
-\* order "ab": merge([A, B]);  "ba": merge([B, A])
-First(order)  == IF order = "ab" THEN A ELSE B
-Second(order) == IF order = "ab" THEN B ELSE A
+Mergeable(order) == /\ Tags(A) \cap Tags(B) = {}
+                    /\ TotalLen(Inputs(order)) <= MaxRows
 
-MergeRenumber(order) == /\ Mergeable
-                        /\ Step([name |-> "merge_renumber", order |-> order], MergeRenumberOf(First(order), Second(order)), B)
-                        /\ UNCHANGED gen
+MergeOp(n, order) == [name |-> n, order |-> order,
+                      a2 |-> IF \E k \in DOMAIN order : order[k] = "a2" THEN PJ(CopyA) ELSE <<>>,
+                      b2 |-> IF \E k \in DOMAIN order : order[k] = "b2" THEN PJ(CopyB) ELSE <<>>]
 
-MergeDropDup(order) == /\ Mergeable
-                       /\ Step([name |-> "merge_dropdup", order |-> order], MergeDropDupOf(First(order), Second(order)), B)
-                       /\ UNCHANGED gen
+MergeRenumber(order) == /\ Mergeable(order)
+                        /\ Step(MergeOp("merge_renumber", order), MergeRenumberOf(Inputs(order)), B)
+                        /\ gen' = gen + 2
+
+MergeDropDup(order) == /\ Mergeable(order)
+                       /\ Step(MergeOp("merge_dropdup", order), MergeDropDupOf(Inputs(order)), B)
+                       /\ gen' = gen + 2
 
 RenumberParticles == Step([name |-> "renumber_particles"], RenumberOf(A), B) /\ UNCHANGED gen
 
@@ -125,11 +135,11 @@ Redraw == /\ Sched /\ d < MaxDepth
 Ops ==  /\ d < MaxDepth
         /\ \/ \E f \in KeyFields : \E vals \in Offered(f) : Subset(f, vals)
            \/ \E f \in KeyFields : \E vals \in Offered(f) : RemoveRows(f, vals)
-           \/ \E f \in SplitFields : \E k \in 1..Len(A) : Split(f, k)
+           \/ \E f \in SplitFields : Split(f)
            \/ Intersect
            \/ \E dupf \in {"sid", "obj"} : \E asc \in BOOLEAN : DropDup(dupf, asc)
-           \/ \E order \in {"ab", "ba"} : MergeRenumber(order)
-           \/ \E order \in {"ab", "ba"} : MergeDropDup(order)
+           \/ \E order \in Orders : MergeRenumber(order)
+           \/ \E order \in Orders : MergeDropDup(order)
            \/ RenumberParticles
            \/ \E s \in Starts : RenumberObjects(s)
            \/ \E bump \in {0, 1} : Fork(bump)
@@ -142,7 +152,7 @@ Spec == Init /\ [][Next]_vars
 \* Property clauses (C08)
 
 OpIs(n) == op'.name = n
-Pool == Range(A) \cup Range(B)
+Pool == Range(A) \cup Range(B) \cup Range(CopyA) \cup Range(CopyB)
 RowFields == {"sid", "tomo", "obj", "score", "cls", "tag"}
 
 \* abstract counterpart of "exactly the 20 fields": a row is exactly the six abstract fields, in both registers
@@ -174,13 +184,9 @@ C08_IntersectionExact == [][OpIs("intersect") => IntersectionExact(A, B, A')]_va
 
 C08_DropDupOneBest == [][OpIs("dropdup") => DropDupOneBest(A, op'.f, op'.asc, A')]_vars
 
-C08_MergeNumbers ==
-    [][OpIs("merge_renumber") =>
-          MergeNumbers(IF op'.order = "ab" THEN A ELSE B, IF op'.order = "ab" THEN B ELSE A, A')]_vars
+C08_MergeNumbers == [][OpIs("merge_renumber") => MergeNumbers(Inputs(op'.order), A')]_vars
 
-C08_MergeDropDupOneBest ==
-    [][OpIs("merge_dropdup") =>
-          MergeDropDupOneBest(IF op'.order = "ab" THEN A ELSE B, IF op'.order = "ab" THEN B ELSE A, A')]_vars
+C08_MergeDropDupOneBest == [][OpIs("merge_dropdup") => MergeDropDupOneBest(Inputs(op'.order), A')]_vars
 
 C08_ParticlesRenumbered == [][OpIs("renumber_particles") => ParticlesRenumbered(A, A')]_vars
 
